@@ -1,8 +1,62 @@
 import SoundeventModel.Ops.Common
 import SoundeventModel.Ops.C09
+import SoundeventModel.Ops.C19
 import SoundeventModel.DetectionGeo
+import SoundeventModel.DetectionTags
 namespace SE.Ops.C08
 open Lean SE SE.Metrics SE.Detection SE.Ops.C09
+
+/-! tag side: a request carries the tag pool (real tags: a term with all its fields and a value, as the
+    harness reads them from the objects it hands to the code) and the vocabulary as positions in the pool; a
+    sound event names its tags by pool position.  The class indices are computed here, by the model of the
+    encoder (C19). -/
+
+def getPoolTag (j : Json) : Except String Encoding.Tag := C19.getTag j
+
+structure TagCtx where
+  pool : Array Encoding.Tag
+  vocab : List Encoding.Tag
+
+def TagCtx.get (c : TagCtx) (j : Json) : Except String Encoding.Tag := do
+  let i ← j.getNat?
+  match c.pool[i]? with
+  | some t => return t
+  | none => .error s!"tag {i} is not in the pool"
+
+def getTagCtx (a : Json) : Except String TagCtx := do
+  let pool := (← (← fldArr a "pool").mapM getPoolTag).toArray
+  let c0 : TagCtx := { pool := pool, vocab := [] }
+  let vocab ← (← fldArr a "vocab").mapM c0.get
+  return { pool := pool, vocab := vocab }
+
+def TagCtx.tags (c : TagCtx) (j : Json) : Except String (List Encoding.Tag) := do (← getArr j).mapM c.get
+
+/-- predicted tags `[[pool position, score]]`; the score is the binary32 value the array stores (so `cast` is
+    the identity in the ops) -/
+def TagCtx.predTags (c : TagCtx) (j : Json) : Except String (List Encoding.PredictedTag) := do
+  (← getArr j).mapM (fun p => do
+    match ← getArr p with
+    | [i, s] => return { tag := ← c.get i, score := ← getRat s }
+    | _ => .error "predicted tag: expected [pool position, score]")
+
+def TagCtx.pred (c : TagCtx) (j : Json) (hasGeom : Bool) : Except String SEPred := do
+  return (TPred.enc id c.vocab { id := ← fldNat j "id", hasGeom := hasGeom, tags := ← c.predTags (← fld j "tags") })
+
+def TagCtx.ann (c : TagCtx) (j : Json) (hasGeom : Bool) : Except String SEAnn := do
+  return (TAnn.enc c.vocab { id := ← fldNat j "id", hasGeom := hasGeom, tags := ← c.tags (← fld j "tags") })
+
+def TagCtx.sePred (c : TagCtx) (j : Json) : Except String SEPred := do c.pred j (← fldBool j "geom")
+def TagCtx.seAnn (c : TagCtx) (j : Json) : Except String SEAnn := do c.ann j (← fldBool j "geom")
+
+def TagCtx.detPreds (c : TagCtx) (j : Json) : Except String (List (Nat × PredClip)) := do
+  (← getArr j).mapM (fun x => do
+    return (← fldNat x "clip",
+      { events := ← (← getArr (optFld x "events" (arrJ []))).mapM c.sePred,
+        matcher := ← getMatcher (optFld x "matcher" (arrJ [])) }))
+
+def TagCtx.seAnns (c : TagCtx) (j : Json) : Except String (List (Nat × List SEAnn)) := do
+  (← getArr j).mapM (fun x => do
+    return (← fldNat x "clip", ← (← getArr (optFld x "events" (arrJ []))).mapM c.seAnn))
 
 /-! geometry layer: a sound event travels with its geometry (`null` or `{"type", "coordinates"}`) -/
 
@@ -11,13 +65,13 @@ def getOptGeom (j : Json) (k : String) : Except String (Option Geom) :=
   | none => .ok none
   | some g => do return some (← getGeom g)
 
-def getGPred (j : Json) : Except String GPred := do
+def getGPred (c : TagCtx) (j : Json) : Except String GPred := do
   let g ← getOptGeom j "geom"
-  return ({ id := ← fldNat j "id", hasGeom := g.isSome, tags := ← getPredTags (← fld j "tags") }, g)
+  return (← c.pred j g.isSome, g)
 
-def getGAnn (j : Json) : Except String GAnn := do
+def getGAnn (c : TagCtx) (j : Json) : Except String GAnn := do
   let g ← getOptGeom j "geom"
-  return ({ id := ← fldNat j "id", hasGeom := g.isSome, tags := ← getTagList (← fld j "tags") }, g)
+  return (← c.ann j g.isSome, g)
 
 def getPairs (j : Json) : Except String (List (Nat × Nat)) := do
   (← getArr j).mapM (fun p => do
@@ -27,16 +81,16 @@ def getPairs (j : Json) : Except String (List (Nat × Nat)) := do
 
 def getRows (j : Json) : Except String (List (List Rat)) := do (← getArr j).mapM getRatList
 
-def getGeoPreds (j : Json) : Except String (List (Nat × GeoClip)) := do
+def getGeoPreds (tc : TagCtx) (j : Json) : Except String (List (Nat × GeoClip)) := do
   (← getArr j).mapM (fun c => do
     return (← fldNat c "clip",
-      { events := ← (← getArr (optFld c "events" (arrJ []))).mapM getGPred,
+      { events := ← (← getArr (optFld c "events" (arrJ []))).mapM (getGPred tc),
         pairs := ← getPairs (optFld c "pairs" (arrJ [])),
         measured := ← getRows (optFld c "measured" (arrJ [])) }))
 
-def getGeoAnns (j : Json) : Except String (List (Nat × List GAnn)) := do
+def getGeoAnns (tc : TagCtx) (j : Json) : Except String (List (Nat × List GAnn)) := do
   (← getArr j).mapM (fun c => do
-    return (← fldNat c "clip", ← (← getArr (optFld c "events" (arrJ []))).mapM getGAnn))
+    return (← fldNat c "clip", ← (← getArr (optFld c "events" (arrJ []))).mapM (getGAnn tc)))
 
 def getOptGeoms (j : Json) : Except String (List (Option Geom)) := do
   (← getArr j).mapM (fun g => match g with
@@ -53,15 +107,16 @@ def handle (op : String) (a : Json) : Except String Json := do
   match op with
   | "detection" =>
     -- `sound_event_detection` end to end (the matcher's answer per evaluated clip is part of the request)
-    let C ← fldNat a "C"
-    return exceptJ evalJ (soundEventDetection C (← getDetPreds (← fld a "predictions")) (← getSEAnns (← fld a "annotations")))
+    let tc ← getTagCtx a
+    return exceptJ evalJ (soundEventDetection tc.vocab.length (← tc.detPreds (← fld a "predictions"))
+      (← tc.seAnns (← fld a "annotations")))
   | "eval_clip" =>
     -- `evaluate_clip` on one clip: the matches and the items they contribute, in the code's order
-    let C ← fldNat a "C"
-    let preds ← (← fldArr a "preds").mapM getSEPred
-    let anns ← (← fldArr a "anns").mapM getSEAnn
+    let tc ← getTagCtx a
+    let preds ← (← fldArr a "preds").mapM tc.sePred
+    let anns ← (← fldArr a "anns").mapM tc.seAnn
     let ms ← getMatcher (← fld a "matcher")
-    match evalClip C preds anns ms with
+    match evalClip tc.vocab.length preds anns ms with
     | none => return raiseJ .key
     | some es => return valJ (Json.mkObj [("entries", arrJ (es.map entryJ)), ("score", ratJ (clipScore es))])
   | "matcher_cover" =>
@@ -77,9 +132,23 @@ def handle (op : String) (a : Json) : Except String Json := do
   | "detection_geo" =>
     -- `sound_event_detection` with the matcher inside the model: geometries, the pairs the assignment solver
     -- chose and (for types without closed form) measured affinities are part of the request
-    let C ← fldNat a "C"
-    return exceptJ evalJ (soundEventDetectionGeo C (← fldRat a "tb") (← fldRat a "fb")
-      (← getGeoPreds (← fld a "predictions")) (← getGeoAnns (← fld a "annotations")))
+    let tc ← getTagCtx a
+    return exceptJ evalJ (soundEventDetectionGeo tc.vocab.length (← fldRat a "tb") (← fldRat a "fb")
+      (← getGeoPreds tc (← fld a "predictions")) (← getGeoAnns tc (← fld a "annotations")))
+  | "pair_score" =>
+    -- "the score of a pair is the probability the prediction gives to the annotation's class", by tag equality
+    -- only (C08_pair_score_is_class_probability): one answer per (annotated tags, predicted tags) of the request
+    let tc ← getTagCtx a
+    let out ← (← fldArr a "pairs").mapM (fun p => do
+      let ann ← tc.tags (← fld p "ann")
+      let pred ← tc.predTags (← fld p "pred")
+      return Json.mkObj [("score", ratJ (pairScoreSpec id tc.vocab ann pred)), ("labelled", boolJ (labelled tc.vocab ann))])
+    return arrJ out
+  | "encode_pool" =>
+    -- the model's encoder on every tag of the pool; is the vocabulary free of repeated (equal) tags?
+    let tc ← getTagCtx a
+    return Json.mkObj [("enc", arrJ (tc.pool.toList.map (fun t => optJ natJ (Encoding.encode tc.vocab t)))),
+                       ("nodup", boolJ (decide tc.vocab.Nodup))]
   | "judge_pairs" =>
     -- "a prediction is paired with an annotation only if their geometries overlap", decided by end-point
     -- comparisons on the matches the code really returned (C08_judge_sound)
